@@ -17,6 +17,8 @@ package ingest
 //@ func ValidateFeature
 //@   trusted
 //@   pure
+//@   requires o != nil && features != nil
+//@   ensures implies(result == nil, feature.FeatureID().IsValid())
 //@ func allReferences
 //@   trusted
 //@   pure
@@ -241,3 +243,13 @@ package ingest
 //@   ensures (result1 != nil) == failed
 //@   ensures implies(result1 == nil, okCalls == len(r) && calls == len(r))
 //@   ensures implies(result1 != nil, calls == okCalls + 1)
+
+// ValidateArea: a nil result means the area's ID is valid and every listed path was looked
+// up and passed ValidatePathForArea (the loops return at the first failure). Stated here:
+// the ID part; the per-path part is the control flow of the two loops (each iteration
+// either continues or returns the error), not expressed as a quantified postcondition.
+//@ func ValidateArea
+//@   requires a != nil && features != nil
+//@   loop 1 invariant i >= 0
+//@   loop 2 invariant rangeindex >= -1
+//@   ensures implies(result == nil, a.AreaID.IsValid())
